@@ -165,5 +165,47 @@ def run():
         shutil.rmtree(fwd, ignore_errors=True)
     except rv.ToolError as e:
         print("selftest 4: skipped (%s)" % str(e)[:120])
+    # 5. file locks: a flipped result in the record, and the model without Linux's "refused change of mode loses the lock"
+    try:
+        import check_locks
+        m = check_locks.mc()
+        check_locks.run_real(m, "quick", "dev")
+        tf = os.path.join(rv.WORK, "locks-dev", "trace.ndjson")
+        evs = [json.loads(l) for l in open(tf)][:4000]
+        where = None
+        for i, e in enumerate(evs):
+            if e.get("ev") == "op" and e["op"]["k"] == "try_ex" and e["res"].get("v") is False:
+                e["res"]["v"] = True             # an exclusive lock granted next to another holder
+                where = i + 1
+                break
+        cf = os.path.join(wd, "locks-corrupt.ndjson")
+        rv.write_ndjson(cf, evs)
+        rf = rv.validate_trace(cf, "TraceLocks.tla", "TraceLocks.cfg", "selftest-locks", parts=1)
+        hit = any(pred == "GrantRespectsHolders" and gl == where for (_, pred, gl, _) in rf["viol"]) and any(gl == where for (gl, _, w) in rf["drift"])
+        print("selftest 5/trace: refused try_lock_exclusive flipped to granted at line %s -> GrantRespectsHolders + DRIFT %s" % (where, "REPORTED" if hit else "MISSED"))
+        ok &= hit
+        lwd = os.path.join(rv.WORK, "val", "selftest-locks-model")
+        shutil.rmtree(lwd, ignore_errors=True)
+        rv.ensure_dir(lwd)
+        for f in os.listdir(rv.SPEC):
+            if f.endswith(".tla") or f == "TraceLocks.cfg":
+                shutil.copy(os.path.join(rv.SPEC, f), os.path.join(lwd, f))
+        lp = os.path.join(lwd, "Locks.tla")
+        ls = open(lp).read()
+        ls2 = ls.replace('[st |-> [st EXCEPT !.held[s] = "none"], res |-> Res("ok", FALSE), blocks |-> ~try]', '[st |-> st, res |-> Res("ok", FALSE), blocks |-> ~try]')
+        assert ls2 != ls
+        open(lp, "w").write(ls2)
+        e = dict(os.environ)
+        e["TRACE"] = tf
+        e["JAVA_TOOL_OPTIONS"] = "-Xss1g -Dtlc2.tool.queue.IStateQueue=StateDeque"
+        q = subprocess.run(["java", "-XX:+UseParallelGC", "-Xmx3g", "-cp", rv.TLC_JAR + ":/opt/veriftools/tla/CommunityModules-deps.jar", "tlc2.TLC",
+                            "-workers", "1", "-metadir", os.path.join(lwd, "md"), "-cleanup", "-noGenerateSpecTE", "-config", "TraceLocks.cfg", "TraceLocks.tla"],
+                           cwd=lwd, env=e, stdout=subprocess.PIPE, stderr=subprocess.STDOUT, text=True, timeout=900)
+        hit = '"DRIFT"' in q.stdout and "TRACE-CONSUMED" in q.stdout
+        print("selftest 5/model: Locks.tla without 'a refused change of mode loses the lock' -> the real traces %s" % ("DRIFT (as expected: Linux does lose it)" if hit else "still conform"))
+        ok &= hit
+        shutil.rmtree(lwd, ignore_errors=True)
+    except rv.ToolError as e:
+        print("selftest 5: skipped (%s)" % str(e)[:120])
     print("SELFTEST %s" % ("PASSED" if ok else "FAILED"))
     return 0 if ok else 1
